@@ -1728,10 +1728,17 @@ func (m *Model) mkdir(c *Conn, r Req, pr *pre, what string) error {
 // touched: a successful mutation inside the currently open directory makes the
 // remaining listing unpredictable (generator simplification, see DESIGN App. C).
 func (m *Model) touched(real string) {
-	if m.wo.open && (m.wo.path == real || strings.HasPrefix(m.wo.path, real+"/")) {
+	// the same file under another name (opened through a symbolic link, changed through its own name, or the
+	// other way round) is the same file
+	alias := func(p string) bool {
+		a, err1 := os.Stat(p)
+		b, err2 := os.Stat(real)
+		return err1 == nil && err2 == nil && os.SameFile(a, b)
+	}
+	if m.wo.open && (m.wo.path == real || strings.HasPrefix(m.wo.path, real+"/") || alias(m.wo.path)) {
 		m.wo.detached = true
 	}
-	if fo, ok := m.ro.obj.(fileObj); ok && m.ro.kind == roObj && (fo.path == real || strings.HasPrefix(fo.path, real+"/")) {
+	if fo, ok := m.ro.obj.(fileObj); ok && m.ro.kind == roObj && (fo.path == real || strings.HasPrefix(fo.path, real+"/") || alias(fo.path)) {
 		m.ro = roState{kind: roUnknown}
 	}
 	if (m.cwd.kind == cwdOpen || m.cwd.kind == cwdExhausted) && (filepath.Dir(real) == m.cwd.dir || real == m.cwd.dir || strings.HasPrefix(m.cwd.dir, real+"/")) {
